@@ -34,6 +34,11 @@ CLAIMED = {
 		text='Procedure.__stack_pop/__result/__make_event/__emit/__run_action/__action/__exec_impl/exec are verified against the stack discipline over an abstract Node interface: the event holds, per declared property, exactly the results of that property\'s nodes (list vs single, source order), exactly those are consumed, one result is pushed, results below are untouched, exec restores the stack of stacks. The induction over the whole tree and the node classes themselves are validated by a bounded monitor on real modules (never counted as proved).',
 		note='abstract Node interface (duplicate-free prop_keys: closed check by evaluation); one statement of __make_event is read through a stated rewrite; Middleware.emit assumed',
 		ref='DESIGN.md §4 C09'),
+	'C10': dict(
+		level='proof',
+		text='Partial: proved are the exception contract of Nodes.ancestor (an absent tag is NodeNotFound) and, for every memoised query (parent, ancestor, children, expand, values), the derived obligation that the memo key determines all inputs the cached factory closes over (so an answer cannot depend on what was asked before). The bijection pluck ∘ full_pathfy, document-order ids, agreement of parent/children/siblings/ancestor/expand with the tree and query-order independence of the resolved class are a bounded twin over random trees (never counted as proved): the code recurses over third-party tree objects and iterates dicts.',
+		note='Memoize.get transparency read from memo2.py; regex de-indexing and path element access assumed; most of the statement is bounded',
+		ref='DESIGN.md §4 C10'),
 	'C15': dict(
 		level='exploration',
 		text='Bounded stand-in only: the contract V(EntryOfLark(loads(json(dumps(T))))) == V(EntryOfLark(T)) is evaluated at run time on every lark tree up to 4 (5) nodes over an alphabet that contains the corner cases (multi-line tokens, unset/zero positions, empty meta, None placeholders, childless trees) and on real parse trees. Nothing is counted as proved: the two recursive functions work on third-party lark objects and heterogeneous dicts that the VC subset cannot carry without replacing most statements by assumed readings.',
@@ -59,7 +64,7 @@ NOT_APPLICABLE = {
 	'C02': 'equality of two parsers over all texts (lark LALR engine interpreting grammar data vs CPython): no function contract of tranp carries it; only differential testing could, which is a different family (DESIGN.md §5)',
 	'C03': 'type soundness of the inference engine against CPython run-time types needs formal semantics of both languages and the stub library; not expressible as a contract over one call or data structure (DESIGN.md §5)',
 }
-PENDING = {p: 'designed in DESIGN.md §4, contracts not built yet in this round' for p in ['C01','C04','C10','C11','C12','C13','C14']}
+PENDING = {p: 'designed in DESIGN.md §4, contracts not built yet in this round' for p in ['C01','C04','C11','C12','C13','C14']}
 
 def main():
 	checks = []
